@@ -505,5 +505,93 @@ theorem parse_specWrite (hF : Codec F rd nc ok) (hP : ParseCodec rd rdr ok) (rl 
   simp only [parseGlif, scanStart, if_true, hg]
   exact (run_evssame rd (body_same hF hP rl libD d hv hl) _ rfl).symm
 
+/-! ### which glyph: `interp` of the described document in closed form -/
+
+def contourG (c : ContourD) : Contour :=
+  { points := c.points.map (fun p => pPoint (pointG p)), ident := c.identifier.map L }
+
+/-- the glyph `specWrite rdr d` describes, as norad's parser builds it (before the object libs are moved out of the lib):
+    colours through `nc`, gated coefficients through `normT` (both the identity under `DescOK`), contours without points
+    dropped, repeated code points kept once -/
+def glyphOf (nc : Color → Color) (libD : Dict) (d : GlyphD) : Glyph :=
+  { name := L d.name
+    width := if nonZero d.width then d.width else 0
+    height := if nonZero d.height then d.height else 0
+    codepoints := d.unicodes.foldl cpInsert []
+    note := match d.note with | none => none | some n => if n.isEmpty then none else some (L n)
+    guidelines := d.guidelines.map (fun g => pGuideline nc (guidelineG g))
+    anchors := d.anchors.map (fun a => pAnchor nc (anchorG a))
+    components := d.components.map (fun k => pComponent (componentG k))
+    contours := (d.contours.filter (fun c => !c.points.isEmpty)).map contourG
+    image := d.image.map (fun i => pImage nc (imageG i))
+    lib := match d.lib with | none => [] | some _ => libD }
+
+theorem foldl_applyB_g (nc : Color → Color) : ∀ (items : List BIt) (s : PS),
+    (items.foldl (applyB nc) s).g = items.foldl (applyG nc) s.g := by
+  intro items
+  induction items with
+  | nil => intro s; rfl
+  | cons it r ih => intro s; rw [List.foldl_cons, List.foldl_cons, ih]; rfl
+
+theorem foldl_unicodes (nc : Color → Color) : ∀ (cs : List Nat) (g : Glyph),
+    (cs.map BIt.unicode).foldl (applyG nc) g = { g with codepoints := cs.foldl cpInsert g.codepoints } := by
+  intro cs
+  induction cs with
+  | nil => intro g; rfl
+  | cons c r ih => intro g; simp [List.foldl_cons, ih, applyG]
+
+theorem foldl_guidelines (nc : Color → Color) : ∀ (gs : List GuidelineD) (g : Glyph),
+    (gs.map fun x => BIt.guideline (guidelineG x)).foldl (applyG nc) g =
+      { g with guidelines := g.guidelines ++ gs.map (fun x => pGuideline nc (guidelineG x)) } := by
+  intro gs
+  induction gs with
+  | nil => intro g; simp
+  | cons c r ih => intro g; simp [List.foldl_cons, ih, applyG]
+
+theorem foldl_anchors (nc : Color → Color) : ∀ (as : List AnchorD) (g : Glyph),
+    (as.map fun x => BIt.anchor (anchorG x)).foldl (applyG nc) g =
+      { g with anchors := g.anchors ++ as.map (fun x => pAnchor nc (anchorG x)) } := by
+  intro as
+  induction as with
+  | nil => intro g; simp
+  | cons c r ih => intro g; simp [List.foldl_cons, ih, applyG]
+
+theorem pts_points (ps : List PointD) :
+    (ps.map fun p => CIt.point (pointG p)).flatMap CIt.pts = ps.map (fun p => pPoint (pointG p)) := by
+  induction ps with
+  | nil => rfl
+  | cons p r ih => simp [List.flatMap_cons, CIt.pts, ih]
+
+theorem foldl_contours : ∀ (cs : List ContourD) (ob : OB),
+    (cs.map fun c => OIt.contour (c.identifier.map L) (c.points.map fun p => CIt.point (pointG p))).foldl applyO ob =
+      { ob with contours := ob.contours ++ (cs.filter (fun c => !c.points.isEmpty)).map contourG } := by
+  intro cs
+  induction cs with
+  | nil => intro ob; simp
+  | cons c r ih =>
+    intro ob
+    simp only [List.map_cons, List.foldl_cons, ih, applyO, pts_points]
+    cases hp : c.points <;> simp [List.filter_cons, hp, contourG]
+
+theorem foldl_components : ∀ (ks : List ComponentD) (ob : OB),
+    (ks.map fun k => OIt.component (componentG k)).foldl applyO ob =
+      { ob with components := ob.components ++ ks.map (fun k => pComponent (componentG k)) } := by
+  intro ks
+  induction ks with
+  | nil => intro ob; simp
+  | cons c r ih => intro ob; simp [List.foldl_cons, ih, applyO]
+
+/-- **the described glyph in closed form** -/
+theorem interp_gdocOf (nc : Color → Color) (libD : Dict) (d : GlyphD) :
+    interp nc (gdocOf libD d) = glyphOf nc libD d := by
+  unfold interp gdocOf itemsOf glyphOf
+  rw [foldl_applyB_g]
+  simp only [List.foldl_append, List.foldl_cons, List.foldl_nil, foldl_unicodes, foldl_guidelines, foldl_anchors]
+  rcases d.note with _ | n
+  · cases d.image <;> cases d.lib <;>
+      simp [applyG, oitsOf, List.foldl_append, foldl_contours, foldl_components, glyphOf]
+  · by_cases he : n = "" <;> cases d.image <;> cases d.lib <;>
+      simp [he, applyG, oitsOf, List.foldl_append, foldl_contours, foldl_components, glyphOf, L]
+
 end
 end C05Bridge
